@@ -36,10 +36,10 @@ def _check(mi, outcome, val, built=None):
 def mutants(site: int, mut: int, rsel: int, tag: str, vsel: int,
             ksel: int) -> bool:
     """
-    pre: 0 <= site < 28 and 0 <= mut < 7 and 0 <= rsel < 76
+    pre: 0 <= site < 28 and 0 <= mut < 7 and 0 <= rsel < 80
     pre: 1 <= len(tag) <= 40 and tag != '!'
     pre: not tag.startswith('tag:yaml.org,2002:')
-    pre: 0 <= vsel < 14 and 0 <= ksel < 12
+    pre: 0 <= vsel < 17 and 0 <= ksel < 14
     post: __return__
     """
     r = explore(slice_no(0), site, mut, rsel, tag, vsel, ksel, LIM, _check)
@@ -49,10 +49,10 @@ def mutants(site: int, mut: int, rsel: int, tag: str, vsel: int,
 def mutants_reach(site: int, mut: int, rsel: int, tag: str, vsel: int,
                   ksel: int) -> bool:
     """
-    pre: 0 <= site < 28 and 0 <= mut < 7 and 0 <= rsel < 76
+    pre: 0 <= site < 28 and 0 <= mut < 7 and 0 <= rsel < 80
     pre: 1 <= len(tag) <= 40 and tag != '!'
     pre: not tag.startswith('tag:yaml.org,2002:')
-    pre: 0 <= vsel < 14 and 0 <= ksel < 12
+    pre: 0 <= vsel < 17 and 0 <= ksel < 14
     post: __return__
     """
     r = explore(slice_no(0), site, mut, rsel, tag, vsel, ksel, LIM, _check)
